@@ -151,6 +151,8 @@ func driveAPI(c *ctx) {
 	files, _ := filepath.Glob(filepath.Join(dir, "*", "sk-*.ndjson"))
 	more, _ := filepath.Glob(filepath.Join(dir, "sk-*.ndjson"))
 	files = append(files, more...)
+	more, _ = filepath.Glob(filepath.Join(dir, "*", "*", "sk-*.ndjson"))
+	files = append(files, more...)
 	sort.Strings(files)
 	if len(files) == 0 {
 		fatal("api: no schedules under VERIF_SKEL_DIR=" + dir)
